@@ -335,7 +335,9 @@ def execute(sc):
                 gold = goldens[core.digest(spec)]
                 targeted = any(f['name'] and spec.get('name') and spec['name'] in f['name'] for f in w.plan.fired)
                 mem_injected = any(f['thread'] == t and f['op'] == k and f['kind'] == 'memerr' for f in S.fired)
-                if isinstance(result, dict) and result.get('exc', [''])[0] == 'ArgsModified':
+                if spec['op'] == 'miter' and isinstance(result, dict) and result.get('ok', {}).get('consistent') is False:
+                    viols.append(_viol('c15.result', '%s: %s' % (_opname(spec), '; '.join(result['ok']['problems'])), thread=t, op=k))
+                elif isinstance(result, dict) and result.get('exc', [''])[0] == 'ArgsModified':
                     viols.append(_viol('c15.args', '%s: %s' % (_opname(spec), result['exc'][1][:200]), thread=t, op=k))
                 elif result != gold:
                     if targeted and (_is_oserror_result(result) or (spec['op'] == 'cli' and result.get('ok', {}).get('status') != 0)):
